@@ -60,6 +60,10 @@ impl Family for C08Family {
         let rps = [0u8, 8];
         for p in c.prelude.iter_mut() {
             p.rp_id = rp_effective(*r.pick(&rps)).to_owned();
+            // an imported key without an alg label: the library cannot sign with it, and must not touch the record
+            if r.chance(1, 10) {
+                p.key_layout = 4;
+            }
             if r.chance(1, 4) {
                 p.counter = Some(*r.pick(&BOUNDARY));
             }
